@@ -171,3 +171,16 @@ claim("C13", SM,
       "simulated behaviours are replayed and recorded random histories are validated by TLC.",
       "TLC; 16-bit address size; byte-aligned accesses; structural decomposition of read results into byte terms by the harness",
       "DESIGN.md 5/C13, B.6", "SymbMem")
+
+IRJ = ("TLA+ reference semantics of miasm IR (IRMachine.tla over Expr.tla / BV.tla: parallel assign blocks, byte memory with a write "
+       "log, successor selection by IRDst) used as the deciding oracle: facts recorded from the real code (symbolic states, "
+       "transformed graphs, lifted blocks) are judged by TLC item by item against concrete runs of the machine")
+
+claim("C12", IRJ,
+      "Random IR programs over x86-32 registers (1-4 blocks; swaps, use-and-redefine, reads/writes on pointer registers +- constants "
+      "and absolute addresses, overlapping accesses on one base, constant / conditional / computed destinations) are run by "
+      "SymbolicExecutionEngine.run_at (the executed block path and every pointer the engine reads or writes are recorded by wrapping "
+      "its hooks); TLC runs the same path on IRMachine.tla from several concrete initial states and checks every register of the "
+      "symbolic state, registers absent from it, every symbolic memory entry, that every concrete write is covered, and the destination.",
+      "TLC; valuations where accesses on different symbolic bases overlap are excluded (the property's proviso), decided by "
+      "evaluating the recorded pointers; one memory destination per assign block", "DESIGN.md 4.3, 5/C12", "IRJudge")
